@@ -246,7 +246,9 @@ Section Tl.
           | TVector el elname named =>
               let cnt := of_le (bslice d i (i + 4)) in
               let i1 := (i + 4)%nat in
-              if (N.of_nat (List.length d - i1) <? cnt)%N then Err ETl else
+              (* `length > len(data) - i`: the right-hand side is negative when earlier fixed-width reads ran past
+                 the end of the data, and then the check fires even for a zero count *)
+              if Z.of_nat (List.length d) - Z.of_nat i1 <? Z.of_N cnt then Err ETl else
               let n := N.to_nat cnt in
               bind ((fix loop (k : nat) (i : nat) (acc : list tv) : result (nat * list tv) :=
                        match k with
